@@ -120,7 +120,7 @@ class Mutator:
             return inp.replace_path(path_1, tree_2).replace_path(path_2, tree_1)
 
         return (
-            safe(
+            safe(exceptions=(IndexError,))(
                 lambda: random.choice(
                     [
                         ((path_1, tree_1), (path_2, tree_2))
@@ -130,8 +130,7 @@ class Mutator:
                         and not parent_or_child(path_1, path_2)
                         and tree_1.value == tree_2.value
                     ]
-                ),
-                exceptions=(IndexError,),
+                )
             )()
             .map(process)
             .map(Some)
